@@ -380,6 +380,11 @@ def input_cases(rng: random.Random, n_valid: int, per_kind: int):
             s2 = [list(b) for b in segs]
             s2[1].append(s2[0][0])
             out.append(('overlap', ids, s2, ks, choices))
+        if len(segs) >= 3:
+            # the two strata that share an alternative are not neighbours in the list
+            s2 = [list(b) for b in segs]
+            s2[-1].append(s2[0][0])
+            out.append(('overlap', ids, s2, ks, choices))
         out.append(('empty-stratum', ids, segs + [[]], ks + [1], choices))
         s2 = [list(b) for b in segs]
         s2[0].append(99)
